@@ -44,7 +44,7 @@ Qed.
 Lemma round_ge : forall hs l p, In p l ->
   S (nth p hs 0) <= fold_right (fun p m => Nat.max (S (nth p hs 0)) m) 0 l.
 Proof.
-  induction l; simpl; intros p H; [tauto|]. destruct H as [->|H]; [lia|].
+  induction l; cbn [fold_right In]; intros p H; [tauto|]. destruct H as [->|H]; [lia|].
   apply IHl in H. lia.
 Qed.
 
